@@ -72,6 +72,9 @@ func New(id, tier, level string) *Ctx {
 	seed, _ := strconv.ParseInt(os.Getenv("VERIF_SEED"), 10, 64)
 	c := &Ctx{ID: id, Tier: tier, Level: level, Seed: seed, start: time.Now(), Cov: map[string]any{},
 		viol: map[string]*violation{}, knownHit: map[int]int{}, counters: map[string]int64{}, maxSamples: 6, MaxReplays: 8}
+	if n, err := strconv.Atoi(os.Getenv("VERIF_MAX_REPLAYS")); err == nil && n > 0 {
+		c.MaxReplays = n
+	}
 	os.RemoveAll(filepath.Join(OutRoot(), "replays", id))
 	b, err := os.ReadFile(filepath.Join(Root(), "known_findings.json"))
 	if err == nil {
